@@ -67,4 +67,30 @@ theorem decide_byte_eq (c : UInt8) (k : Nat) (hk : k < 256) :
     rw [this]; simp [Nat.mod_eq_of_lt hk]
   · intro h; subst h; simp [Nat.mod_eq_of_lt hk]
 
+/-- the element at the split point of a slice: the invariant of every `for _, x := range l` loop -/
+theorem idxL_append_length {α : Type} (pre : List α) (c : α) (suf : List α) :
+    idxL (pre ++ c :: suf) (pre.length : Int) = .ok c := by
+  have h : pre.length < (pre ++ c :: suf).length := by simp
+  rw [idxL_natCast h]; simp
+
+theorem range_cond_true {α : Type} (pre : List α) (c : α) (suf : List α) :
+    decide ((pre.length : Int) < len (pre ++ c :: suf)) = true := by
+  simp [len_eq]; omega
+
+theorem range_cond_false {α : Type} (pre : List α) :
+    decide ((pre.length : Int) < len (pre ++ ([] : List α))) = false := by
+  simp [len_eq]
+
+theorem range_next {α : Type} (pre : List α) (c : α) :
+    (pre.length : Int) + 1 = ((pre ++ [c]).length : Int) := by
+  simp
+
+theorem length_dropWhile_le {α : Type} (p : α → Bool) : ∀ l : List α, (l.dropWhile p).length ≤ l.length
+  | [] => Nat.le_refl _
+  | a :: l => by
+    by_cases h : p a = true
+    · simp only [List.dropWhile_cons, h, if_true, List.length_cons]
+      exact Nat.le_succ_of_le (length_dropWhile_le p l)
+    · simp [h]
+
 end ModVerif.GoRtPrint
